@@ -36,6 +36,8 @@ type Link struct {
 	// stall (see stall.go): while set, the client's Write neither accepts nor fails until the link dies.
 	stall   atomic.Bool
 	stalled atomic.Int32
+	// unrel (see unreliable.go): optional datagram-like channel pair; nil unless EnableUnreliable was called.
+	unrel atomic.Pointer[unrelQ]
 }
 
 func NewLink(params transport.NegotiationParams) *Link {
@@ -116,7 +118,7 @@ func (c *Client) CloseWithStatus(transport.CloseStatus) error {
 }
 func (c *Client) RxBytesCounterValue() uint64 { return c.l.rx.Load() }
 func (c *Client) TxBytesCounterValue() uint64 { return c.l.tx.Load() }
-func (c *Client) AsUnreliable() (transport.UnreliableTransport, bool) { return nil, false }
+func (c *Client) AsUnreliable() (transport.UnreliableTransport, bool) { return c.l.asUnreliable() }
 func (c *Client) NegotiationParams() transport.NegotiationParams     { return c.l.Params }
 func (c *Client) Name() transport.Name                               { return transport.Name("memtr") }
 
